@@ -36,7 +36,9 @@ REQS = [{"path": "/ok", "accept_encoding": "gzip"}, {"path": "/small", "accept_e
         {"path": "/ok", "accept_encoding": "*;q=0"}, {"path": "/ok", "accept_encoding": "deflate, gzip;q=0.5"},
         {"path": "/return_big_http", "accept_encoding": "gzip"}, {"path": "/noct"},
         {"path": "/ok", "cookie": "clastic_cookie=a?b"}, {"path": "/nope", "cookie": "clastic_cookie=a=b?c=d"},
-        {"path": "/ok", "cookie": "clastic_cookie=x"}, {"path": "/ok", "query": "_prof_sort=bogus"}]
+        {"path": "/ok", "cookie": "clastic_cookie=x"}, {"path": "/ok", "query": "_prof_sort=bogus"},
+        {"path": "/bignoct", "accept_encoding": "gzip", "user_agent": "Mozilla/4.0 (compatible; MSIE 8.0; Windows NT 6.1)"},
+        {"path": "/raise_noct"}, {"path": "/ok", "accept_encoding": "gzip", "user_agent": "Mozilla/4.0 (compatible; MSIE 8.0)"}]
 NATIVE = {'compress': 'gzip', 'client_cache': 'cache', 'stats': 'stats', 'profile': 'profile', 'cookie': 'cookie',
           'url.GetParam': 'getparam', 'form': 'postdata', 'url.ScriptRoot': 'scriptroot'}
 
